@@ -3,6 +3,7 @@ package main
 import (
 	"fmt"
 	"go/token"
+	"go/types"
 	"strings"
 
 	"golang.org/x/tools/go/ssa"
@@ -229,4 +230,240 @@ func indLower(v ssa.Value, seen map[*ssa.Phi]bool) (int64, bool) {
 		return lb, true
 	}
 	return 0, false
+}
+
+// readsAssocState: the value's operand tree (descending into in-package callees)
+// reads a field of the Association or calls one of its state getters.
+func readsAssocState(p *Prog, v ssa.Value, d int, seen map[ssa.Value]bool) (bool, string) {
+	if v == nil || d > 10 || seen[v] {
+		return false, ""
+	}
+	seen[v] = true
+	isAssoc := func(t types.Type) bool {
+		if pt, ok := t.Underlying().(*types.Pointer); ok {
+			t = pt.Elem()
+		}
+		n, ok := t.(*types.Named)
+		return ok && n.Obj().Name() == "Association"
+	}
+	switch x := v.(type) {
+	case *ssa.FieldAddr:
+		if isAssoc(x.X.Type()) {
+			return true, "Association." + fieldOf(x.X.Type(), x.Field).Name()
+		}
+	case *ssa.Call:
+		if sc := x.Call.StaticCallee(); sc != nil && sc.Pkg == p.SPkg {
+			if sc.Signature.Recv() != nil && isAssoc(sc.Signature.Recv().Type()) {
+				return true, p.FuncName(sc) + "()"
+			}
+			for _, r := range allReturns(sc) {
+				for _, rv := range retResults(r) {
+					if hit, w := readsAssocState(p, rv, d+1, seen); hit {
+						return true, w
+					}
+				}
+			}
+		}
+	}
+	in, ok := v.(ssa.Instruction)
+	if !ok {
+		return false, ""
+	}
+	for _, op := range in.Operands(nil) {
+		if *op == nil {
+			continue
+		}
+		if hit, w := readsAssocState(p, *op, d+1, seen); hit {
+			return true, w
+		}
+	}
+	return false, ""
+}
+
+func init() {
+	register(&Rule{ID: "C19.R12", Props: []string{"C19"}, Engine: "E3",
+		Title:   "a HEARTBEAT is answered whatever the association state: the site in handleHeartbeat that builds the HEARTBEAT ACK is conditioned only on the request's own contents (parameter present and of the right type) — no dominating test reads an Association field or state getter (RFC 9260 §8.3: answered in every state a HEARTBEAT can be received in, including SHUTDOWN-RECEIVED while outstanding DATA drains)",
+		MinInst: 1,
+		Run: func(c *RuleCtx) {
+			hh := c.Fn("Association.handleHeartbeat")
+			hi := c.field("paramHeartbeatInfo", "heartbeatInformation")
+			n := 0
+			for _, a := range c.storesInRegion(hh, hi) {
+				if !IsLoadOf(hi)(a.Val) {
+					continue
+				}
+				n++
+				var extra []string
+				for _, f := range localFactsUpTo(a.Instr, hh) {
+					if hit, w := readsAssocState(c.P, f.Cond, 0, map[ssa.Value]bool{}); hit {
+						extra = append(extra, fmt.Sprintf("%s=%v (reads %s)", shortValue(c.P, f.Cond), f.Taken, w))
+					}
+				}
+				c.Check(len(extra) == 0, "heartbeat-answered-in-every-state", c.Pos(a.Instr), "the HEARTBEAT ACK depends only on the request's contents", "the HEARTBEAT ACK is sent only if "+strings.Join(extra, " ∧ ")+": in the other states the peer's probe goes unanswered and yields no round-trip sample")
+			}
+			c.Check(n >= 1, "heartbeat-reply-site", c.P.Pos(hh.Pos()), fmt.Sprintf("%d reply site(s)", n), "no site echoing the request's Heartbeat Info found")
+		}})
+}
+
+func init() {
+	register(&Rule{ID: "C18.R9", Props: []string{"C18"}, Engine: "E3",
+		Title:   "an armed read deadline outlives the reads that return before it: outside SetReadDeadline (which replaces the timer) the deadline goroutine's cancel channel is closed only once the read side has ended with an error (readErr ≠ nil dominates the close) — so a Read that returned data does not disarm the timer, and a later Read that blocks is still woken at the deadline instant",
+		MinInst: 1,
+		Run: func(c *RuleCtx) {
+			srd := c.Fn("Stream.SetReadDeadline")
+			rc := c.field("Stream", "readTimeoutCancel")
+			re := c.field("Stream", "readErr")
+			own := map[*ssa.Function]bool{srd: true}
+			for _, g := range goTargetsIn(srd) {
+				own[g] = true
+			}
+			ks := keyer{}
+			n := 0
+			for _, fn := range c.P.Funcs {
+				if c.P.OwnedBy(fn, own) {
+					continue
+				}
+				forEachInstr(fn, func(in ssa.Instruction) {
+					ci, isCall := in.(ssa.CallInstruction)
+					if !isCall {
+						return
+					}
+					b, isB := ci.Common().Value.(*ssa.Builtin)
+					if !isB || b.Name() != "close" || !IsLoadOf(rc)(ci.Common().Args[0]) {
+						return
+					}
+					n++
+					ok := DominatedByExt(in, CmpCond(token.NEQ, IsLoadOf(re), isNilConst))
+					c.Check(ok, ks.key("deadline-survives-successful-read@"+c.P.FuncName(fn)), c.Pos(in), "cancelled only after the read side ended with an error", "the read-deadline timer is cancelled although no read error is latched: a later blocking Read is not woken at the deadline ("+c.describeConds(in)+")")
+				})
+			}
+			c.Check(true, "cancel-sites", "", fmt.Sprintf("%d cancel site(s) outside SetReadDeadline", n), "")
+		}})
+}
+
+// analysisRoots: fn itself, or (for a private helper) the functions that call it.
+func analysisRoots(p *Prog, fn *ssa.Function, d int) []*ssa.Function {
+	if d > 3 || !p.PrivateHelper(fn) {
+		return []*ssa.Function{fn}
+	}
+	var out []*ssa.Function
+	for _, s := range p.CallSitesOf(fn) {
+		out = append(out, analysisRoots(p, s.Fn, d+1)...)
+	}
+	if len(out) == 0 {
+		return []*ssa.Function{fn}
+	}
+	return out
+}
+
+func init() {
+	register(&Rule{ID: "C18.R10", Props: []string{"C18", "C08"}, Engine: "E5",
+		Title:   "the blocking-write gate is thrown open only when the association leaves ESTABLISHED: specialising every function that calls unblockPendingWrites over all entry states, the association state at the call can never be established (Shutdown: after →shutdownPending; close: after →closed; handleShutdown: after →shutdownReceived) — while established the gate is lowered solely by the drain notification, so a parked blocking Write cannot be let through with the previous message still pending",
+		MinInst: 2,
+		Run: func(c *RuleCtx) {
+			e, err := c.P.States()
+			if err != nil {
+				panic(unresolved{err.Error()})
+			}
+			ub := c.Fn("Association.unblockPendingWrites")
+			est := e.Set("established")
+			ks := keyer{}
+			n := 0
+			for _, fn := range c.P.Funcs {
+				for _, site := range callsIn(fn, ub) {
+					n++
+					bad := ""
+					for _, root := range analysisRoots(c.P, fn, 0) {
+						run := e.Run(root, e.all)
+						s, reached := run.Reach[site]
+						if !reached {
+							if run.BlockReached(site.Block()) {
+								bad = "UNDECIDED: state at the call not computed from " + c.P.FuncName(root)
+							}
+							continue
+						}
+						if s&est != 0 {
+							bad = fmt.Sprintf("entered from %s the association may still be %s here", c.P.FuncName(root), e.String(s))
+						}
+					}
+					c.Check(bad == "", ks.key("gate-opened-only-off-established@"+c.P.FuncName(fn)), c.Pos(site), "state ≠ established at the call", "unblockPendingWrites is called while the association can be established ("+bad+"): every parked blocking Write proceeds although the pending queue has not drained")
+				}
+			}
+			c.Check(n >= 2, "unblock-sites", "", fmt.Sprintf("%d call site(s)", n), fmt.Sprintf("only %d call sites of unblockPendingWrites", n))
+		}})
+}
+
+func init() {
+	register(&Rule{ID: "C17.R9", Props: []string{"C17"}, Engine: "E2",
+		Title:   "the configured stream weights survive scheduler re-initialisation: weightedFairQueueingPendingQueuePolicy.weights is written only while the policy is constructed from the configured weights — not by Reset(), which pendingQueue.setInterleaving calls on the freshly installed policy when interleaving is negotiated (otherwise every stream is served with weight 1 and normalised service diverges)",
+		MinInst: 1,
+		Run: func(c *RuleCtx) {
+			w := c.field("weightedFairQueueingPendingQueuePolicy", "weights")
+			n := c.WritersWithin("weights", w, "newWeightedFairQueueingPendingQueuePolicy")
+			ctor := fnSet(c.fns("newWeightedFairQueueingPendingQueuePolicy"))
+			ks := keyer{}
+			for _, fn := range c.P.Funcs {
+				if c.P.OwnedBy(fn, ctor) {
+					continue
+				}
+				forEachInstr(fn, func(in ssa.Instruction) {
+					mut := false
+					switch x := in.(type) {
+					case *ssa.MapUpdate:
+						mut = IsLoadOf(w)(x.Map)
+					case ssa.CallInstruction:
+						if b, ok := x.Common().Value.(*ssa.Builtin); ok && (b.Name() == "delete" || b.Name() == "clear") && len(x.Common().Args) > 0 {
+							mut = IsLoadOf(w)(x.Common().Args[0])
+						}
+					}
+					if mut {
+						c.Fail(ks.key("weights:mutate@"+c.P.FuncName(fn)), c.Pos(in), "the weights table is modified in "+c.P.FuncName(fn)+", outside the constructor")
+					}
+				})
+			}
+			c.Check(n >= 1, "weights-configured", "", fmt.Sprintf("%d write(s) of the weights table, all in the constructor", n), "the weights table is never filled from the configuration")
+		}})
+}
+
+func init() {
+	register(&Rule{ID: "C16.R7", Props: []string{"C16"}, Engine: "E6",
+		Title:   "no sequence number has a special absolute value: a value classified as a TSN/SSN/MID/request-sequence number is never tested for (in)equality against a constant (a 0 that means 'not recorded' is also a position a wrapped counter legitimately takes; the reviewed exceptions compare a wire field that is defined to be zero)",
+		MinInst: 1,
+		Run: func(c *RuleCtx) {
+			e := c.P.Serial()
+			ks := keyer{}
+			n := 0
+			for _, fn := range c.P.Funcs {
+				name := c.P.FuncName(fn)
+				if isSnaHelper(name) {
+					continue
+				}
+				forEachInstr(fn, func(in ssa.Instruction) {
+					b, ok := in.(*ssa.BinOp)
+					if !ok || (b.Op != token.EQL && b.Op != token.NEQ) {
+						return
+					}
+					var ser, other ssa.Value
+					switch {
+					case e.kind[b.X] == serSerial:
+						ser, other = b.X, b.Y
+					case e.kind[b.Y] == serSerial:
+						ser, other = b.Y, b.X
+					default:
+						return
+					}
+					n++
+					if _, isK := constInt(unconv(other)); !isK {
+						return
+					}
+					if fsn := c.P.Field("chunkPayloadData", "fragmentSequenceNumber"); fsn != nil && IsLoadOf(fsn)(ser) {
+						// RFC 8260 §2.1: the FSN is not free-running; the first fragment of every message is FSN 0 by definition
+						c.Ok(ks.key("fsn-origin@"+name), c.Pos(in), "FSN compared with its defined origin 0 (RFC 8260: the first fragment of a message carries FSN 0)")
+						return
+					}
+					c.Fail(ks.key("sentinel-compare@"+name), c.Pos(in), fmt.Sprintf("sequence number %s compared with the constant %s: that absolute value is treated specially, so behaviour differs when the counter passes through it", shortValue(c.P, ser), shortValue(c.P, other)))
+				})
+			}
+			c.Check(true, "equality-tests", "", fmt.Sprintf("%d (in)equality tests on sequence numbers examined", n), "")
+		}})
 }
